@@ -684,9 +684,13 @@ class PilotManager(rpu.ClientComponent):
 
             self._rep.idle()
 
-            to_check = [pilot for pilot in to_check
-                               if pilot.state not in states and
-                                  pilot.state not in rps.FINAL]
+            # wait for the *earliest* of the given states - any later state
+            # implies that the earliest one was passed
+            check_val = min([rps._pilot_state_values[s] for s in states])
+            to_check  = [pilot for pilot in to_check
+                                if pilot.state not in rps.FINAL and
+                                   rps._pilot_state_values[pilot.state]
+                                                                  < check_val]
 
             if to_check:
 
